@@ -127,6 +127,18 @@ def do_tuples(patterns, txn):
         return {'exception': type(e).__name__ + ': ' + str(e)[:120]}
 
 
+def do_explain(handle, txn):
+    """`tally explain "<description>"`'s trace for a description, with the rules as loaded."""
+    from tally import merchant_utils as mu
+    rules, transforms = handle
+    try:
+        r = mu.explain_description(txn.get('description', ''), rules, amount=txn.get('amount'), transforms=transforms)
+        mr = r.get('matched_rule') or {}
+        return {'m': r.get('merchant'), 'c': r.get('category'), 's': r.get('subcategory'), 'unknown': r.get('is_unknown'), 'tags': sorted(mr.get('tags') or [])}
+    except Exception as e:
+        return {'exception': type(e).__name__ + ': ' + str(e)[:120]}
+
+
 def do_loadonly(path):
     """Whether (and as how many rules) a rule file loads."""
     from tally import merchant_utils as mu
@@ -183,6 +195,9 @@ def answer(q, tmpdir):
         return do_tuples(q['patterns'], tx_from(q['txn']))
     if op == 'loadonly':
         return do_loadonly(q['path'])
+    if op == 'explain':
+        h = do_load(q['path'], q['mode'])
+        return do_explain(h, tx_from(q['txn']))
     if op == 'engine':
         return do_engine(q['text'], q['mode'], tx_from(q['txn']), q['rows'])
     if op == 'view':
@@ -395,7 +410,11 @@ def make_pool(rnd, tmp, k):
         files[name] = {'path': O.write(os.path.join(d, name + '.rules'), R.render(rf)), 'kind': 'rules', 'text': R.render(rf)}
     for name in ('D', 'E'):
         # (each legacy file also holds a row limited to the last N days: its window is computed from TODAY each time it is evaluated; nothing is written back)
-        files[name] = {'path': O.write(os.path.join(d, name + '.csv'), R.render_csv(R.gen_csv_rules(rnd), rnd) +
+        body = R.render_csv(R.gen_csv_rules(rnd), rnd)
+        hdr_, rest_ = body.split('\n', 1)
+        # (... and a tag-only row above a categorizing row for the same text: the first adds a tag, the second decides)
+        body = hdr_ + '\n' + rnd.choice(['NETFLIX', 'UBER', 'COSTCO']) + ',Tagger,,,flagged|seen\n' + rest_ + 'NETFLIX|UBER|COSTCO,Known Shop,Shops,Known,plain\n'
+        files[name] = {'path': O.write(os.path.join(d, name + '.csv'), body +
                                        'RELATIVE[date:last%ddays],Recent Thing,Recent,Window,\n' % rnd.choice([30, 7, 90])), 'kind': 'csv'}
     # a legacy CSV rule file with a stray quote: everything after it is one enormous cell (beyond what the csv module accepts by default)
     huge = 'Pattern,Merchant,Category,Subcategory\nNETFLIX,Netflix,Subs,Video\nBROKEN,"Stray quote,Cat,Sub\n' + ''.join('P%d,M%d,Cat,Sub\n' % (i, i) for i in range(9000))
@@ -432,7 +451,7 @@ def run_sequence(rec, pool, pr, rnd, nops, tmp, fresh_rate):
         rec.count('history_ops')
         if step:
             tree_integrity(rec, ep, rnd, 12, 'after step %d' % (step - 1), {'kind': 'history', 'step': step})
-        op = rnd.choice(['load', 'load', 'classify', 'classify', 'classify', 'parse', 'parse', 'eval', 'eval', 'engine', 'view', 'reload', 'tuples'])
+        op = rnd.choice(['load', 'load', 'classify', 'classify', 'classify', 'parse', 'parse', 'eval', 'eval', 'engine', 'view', 'reload', 'tuples', 'explain'])
         if flood_at == step:
             # a long-lived process has seen many distinct expressions and regular expressions (a big migrated rule file, many files):
             # whatever bounded or keyed cache sits behind them, later answers must not change
@@ -503,6 +522,20 @@ def run_sequence(rec, pool, pr, rnd, nops, tmp, fresh_rate):
             continue
         txn = rnd.choice(pool['txns'])
         case_base = {'kind': 'history', 'file': cur, 'file_kind': f['kind'], 'mode': mode, 'step': step}
+        if op == 'explain':
+            # asking HOW a description would be classified is a question: it changes neither the loaded rules nor any later answer
+            if f['kind'] not in ('rules', 'csv') or handle is None:
+                continue
+            snap = typed_snapshot(handle[0])
+            got8 = do_explain(handle, txn)
+            want8 = pr.ask({'op': 'explain', 'path': f['path'], 'mode': mode, 'txn': O.jtxn(txn), 'rev': f.get('rev', 0)})
+            rec.count('explain_traces_vs_pristine')
+            if typed_snapshot(handle[0]) != snap:
+                rec.violation('explain-mutates-rules', f'explain_description after load {cur} ({f["kind"]}): the loaded rule tuples changed', dict(case_base, txn=O.jtxn(txn)))
+            if 'oracle_error' not in want8 and got8 != want8:
+                rec.violation('history-dependent-classification:explain', f'step {step}: explain_description of {txn.get("description")!r} after loading {cur} gives {got8}; a pristine '
+                              f'process gives {want8}', dict(case_base, txn=O.jtxn(txn)))
+            continue
         if op in ('classify', 'parse'):
             if op == 'parse' and (not txn.get('date') or not txn['description'].strip() or txn['amount'] == 0):
                 op = 'classify'
